@@ -63,7 +63,7 @@ where
 }
 
 pub fn sleep(d: Duration) {
-    let deadline = super::core::with_state(|st, _| st.clock.saturating_add(d.as_nanos() as u64));
+    let deadline = super::core::with_state(|st, _| st.clock.saturating_add(super::time::ns_saturating(d)));
     sched(Op::Sleep(deadline), |_, _| ());
 }
 
